@@ -387,6 +387,51 @@ fn interval_slow_exit_body(period_ms: u64, drain: bool) -> vsched::Body {
     })
 }
 
+/// One-shot timers against a target that is on its way out for a while (its post_stop takes 4 periods; or it is
+/// draining a slow backlog): one armed before the stop request that fires inside that stretch, one armed after the
+/// target was seen in that state. "A timer whose target is no longer running delivers nothing and reports the
+/// error through its handle."
+fn send_after_slow_exit_body(period_ms: u64, drain: bool) -> vsched::Body {
+    Arc::new(move || {
+        Box::pin(async move {
+            let log = Log::default();
+            let p = period_ms * MS;
+            let prog = Prog { post_stop: vec![Step::SleepMs(4 * period_ms)], ..Default::default() };
+            let (a, ah) = Actor::spawn(None, Probe, args("A", prog, &log)).await.expect("A");
+            let early = arm_after(&a, Duration::from_millis(2 * period_ms), 41);
+            vsched::sleep(Duration::from_nanos(p)).await;
+            if drain {
+                let _ = a.cast(do_msg(9, vec![Step::SleepMs(4 * period_ms)]));
+                let _ = a.drain();
+            } else {
+                a.stop(None);
+            }
+            vsched::sleep(Duration::from_nanos(p / 2)).await;
+            let status_at_arm = a.get_status();
+            let late = arm_after(&a, Duration::from_millis(period_ms), 42);
+            let r_early = early.outcome().await;
+            let r_late = late.outcome().await;
+            let status_after = a.get_status();
+            let _ = ah.await;
+            vsched::quiesce_time();
+            let mut bad = Vec::new();
+            if !matches!(status_at_arm, ractor::ActorStatus::Stopping | ractor::ActorStatus::Draining) || status_after == ractor::ActorStatus::Stopped {
+                bad.push(format!("(harness) the target was meant to be on its way out while the timers fired: {status_at_arm:?} / {status_after:?}"));
+            }
+            for (what, r) in [("armed before the exit began, fired while the target was on its way out", r_early), ("armed while the target was on its way out", r_late)] {
+                if r != Ok(false) {
+                    bad.push(format!("a send_after timer {what} ({status_at_arm:?}) ended as {r:?}: its handle must report the error"));
+                }
+            }
+            let got: Vec<u32> = handled(&log, "A").iter().map(|x| x.0).filter(|t| *t == 41 || *t == 42).collect();
+            if !got.is_empty() {
+                bad.push(format!("timer messages {got:?} were handled by a target that was no longer running when they fired"));
+            }
+            Outcome { key: format!("{r_early:?} {r_late:?} {status_at_arm:?}"), violations: bad }
+        })
+    })
+}
+
 fn exit_kill_after_body(period_ms: u64, kill: bool, busy: bool) -> vsched::Body {
     exit_kill_after_body_x(period_ms, kill, busy, false)
 }
@@ -570,6 +615,7 @@ pub fn plan(tier: &str) -> Plan {
     }
     for (p, drain) in [(2u64, false), (2, true), (5, false)] {
         mk(&mut units, dv, format!("interval/{p}ms/slow-exit-{}", if drain { "drain" } else { "stop" }), cfg.clone(), Some(bound), interval_slow_exit_body(p, drain));
+        mk(&mut units, dv, format!("interval/{p}ms/slow-exit-{}/one-shot-timers", if drain { "drain" } else { "stop" }), cfg.clone(), Some(bound), send_after_slow_exit_body(p, drain));
     }
     for (p, hold) in [(0u64, 0usize), (5, 0), (1, 3)] {
         mk(&mut units, dv, format!("send_after/{p}ms/instant-target-hold{hold}"), cfg.clone(), Some(bound), send_after_unstarted_body(p, hold));
